@@ -67,6 +67,9 @@ class Collector:
 
 def _snippet(case):
     from . import snippet          # lazy: snippet imports e1, which imports this module
+    if isinstance(case, dict) and '_config' in case:
+        return (f"# run with a pyplate.yaml that sets {json.dumps(case['_config'])} (PYPLATE_CONFIG=<its directory>)\n"
+                + (snippet.for_case(case['case']) or ''))
     return snippet.for_case(case)
 
 
